@@ -157,6 +157,7 @@ pub fn generic_probe_program(names: &[&str]) -> Program {
             entry_points: true,
             query_err_param: None,
             lifetime: false,
+            flip_attr_order: false,
         },
         interfaces: vec![Interface {
             module: "if_a".into(),
@@ -510,7 +511,7 @@ pub fn fragment(rule: &str) -> &'static str {
         "data-not-first" | "data-on-error" | "data-on-always" => "Wrong usage of `#[sv::data]` attribute",
         "data-raw-instantiate" => "cannot be used in pair with `raw`",
         "param-after-raw-payload" | "param-between-data-and-raw-payload" => "Redundant payload parameter",
-        "missing-payload" => "Missing payload parameter",
+        "missing-payload" | "missing-payload-data-only" => "Missing payload parameter",
         "payload-without-args" => "Missing parameters for `sv::payload`",
         "payload-unknown-arg" => "Invalid payload parameter",
         "unknown-msg-arg" => "Invalid argument type, expected `resp`, `handlers`, `reply_on`",
@@ -597,6 +598,7 @@ fn simple_program() -> Program {
             entry_points: true,
             query_err_param: None,
             lifetime: false,
+            flip_attr_order: false,
         },
         interfaces: vec![],
     }
